@@ -18,7 +18,8 @@ from traits.api import HasTraits, Int, Str, Instance, List, Dict, Set, Property,
 ID = "C12"
 LEVEL = "exploration"
 RULE = ("Hypothesis histories (<=25 ops) over 14 dependency mutators, reads and copy operations on an object with 9 observed "
-        "properties; non-trivial = history in which a shared/repeated item is removed once and then mutated, an intermediate "
+        "properties (optionally a subclass that only overrides getters with cached ones); non-trivial = history in which a "
+        "shared/repeated item is removed once and then mutated, an intermediate "
         "object is replaced, a multiplicity-changing slice assignment happens, or the history crosses a copy; distinct by digest")
 ASSUMPTIONS = ["nothing is asserted about the reported `old` value", "getters are pure functions of the current state"]
 
